@@ -30,9 +30,9 @@ CLAIMED = {
    note="n<=3 quick / n<=4 thorough; patterns enumerated, values/perms symbolic. Outside: backward stability, AMD." + _TB, design="DESIGN.md §3 C12, §6"),
  "C13": dict(text=_KANI + "Decides over GF(7) (GF(13) thorough), for all field values, operator identities of the NN and SOC scalings as computed by the real generic code: W^-1 W = W W^-1 = I, W symmetric, mul_W's alpha/beta form, Hs = W'W = the KKT block (dense, and the sparse expansion eta^2(D+uu'-vv') in dimension 5), w normalised and eta^4 = res(s)/res(z), set_identity_scaling resets the whole scaling state incl. the sparse expansion from arbitrary leftovers, Jordan product laws, affine and corrector terms; NN: Hs z = s, lambda^2 = s o z, W^-1 W = I, the ds offset; at f64 the NN KKT block equals s/z exactly and is the operator mul_Hs over 240 binades (no capping).",
    note="SOC dim 3/5, NN dim 2. Outside: the SOC Nesterov-Todd identity (W'W) z = s itself (depends on a coherent choice of nested square roots, no meaning in a field: DESIGN 6.6); floating-point conditioning; PSD (LAPACK)." + _TB, design="DESIGN.md §3 C13, §6"),
- "C14": dict(text=_KANI + "Runs the REAL generic exp/pow cone code at first-order jets over GF(13) (exact differentiation; ln/powf uninterpreted with their derivative rules) and decides that the stored gradient is the derivative of the dual barrier and the stored Hessian the derivative of the gradient, that the dual-scaling fallback is mu*H, that PowerCone::gradient_primal assembles its three components consistently from whatever its scalar Newton solve returns (f64, sign of s3 included), and that the explicit 3x3 Cholesky factorisation used by the third-order correction satisfies L L' = H (fails only for a vanishing leading minor).",
+ "C14": dict(text=_KANI + "Runs the REAL generic exp/pow cone code at first-order jets over GF(13) (exact differentiation; ln/powf uninterpreted with their derivative rules) and decides that the stored gradient is the derivative of the dual barrier and the stored Hessian the derivative of the gradient, that the dual-scaling fallback is mu*H, that PowerCone::gradient_primal assembles its three components consistently from whatever its scalar Newton solve returns (f64, sign of s3 included), that the explicit 3x3 Cholesky factorisation used by the third-order correction satisfies L L' = H (fails only for a vanishing leading minor), and that the power cone's primal and dual membership predicates depend on the third coordinate only through its magnitude (exp/ln uninterpreted).",
    note="Outside: higher_correction == -1/2 third derivative (attempted in five formulations, SAT does not finish within an hour: DESIGN 6.2.19), membership predicates, the Newton / Wright-omega scalar solves inside gradient_primal (hence conjugacy itself), primal-dual scaling matrix, unit_initialization, generalised power cone." + _TB, design="DESIGN.md §3 C14, §6"),
- "C15": dict(text=_KANI + 'Decides, bit-precisely for every f64, that SOC/NN/zero/composite step lengths lie in [0, alpha_max], that the NN ratio test is exact (power-of-two data), that the backtracking search returns the first accepted candidate for an ARBITRARY membership oracle, however many reductions it takes (up to 71), and 0 - never an untested value - when every candidate down to alpha_min is rejected, and that the NN shift places points strictly inside.',
+ "C15": dict(text=_KANI + 'Decides, bit-precisely for every f64, that SOC/NN/zero/composite step lengths lie in [0, alpha_max], that the NN ratio test is exact (power-of-two data), that the SOC step with a nonzero tail is exactly the smallest positive root of the boundary quadratic (two positive roots, a +/- pair, none, and the degenerate single root of a direction on the boundary of -K; power-of-two data down to 2^-60; found and repaired F4), that the backtracking search returns the first accepted candidate for an ARBITRARY membership oracle, however many reductions it takes (up to 71), and 0 - never an untested value - when every candidate down to alpha_min is rejected, and that the NN shift places points strictly inside.',
    note='Outside: numerical tightness of the SOC root; exp/pow membership predicates; PSD.' + _TB, design="DESIGN.md §3 C15, §6"),
  "C16": dict(text=_KANI + "Decides the CSC operations against their dense meaning: check_format = canonical predicate, queries, transpose, dropzeros, to_triu, select_rows, triplets, set_entry, concatenation, gemv/symv/quad_form/scalings/sums (exact over GF(13)), norms (f64).",
    note="Shapes <= 3x3/4x2. Symbolic patterns where the result size is data independent, enumerated patterns with symbolic values otherwise." + _TB, design="DESIGN.md §3 C16, §6"),
